@@ -60,6 +60,7 @@ const REQ_BODY_DAMAGE: &[FK] = &[
     FK::CtLabelSwap,
     FK::Oversize,
     FK::UnknownField,
+    FK::TypeConfusion,
     FK::ByteFlip,
 ];
 const PARAM_FAULTS: &[FK] = &[
@@ -289,6 +290,8 @@ impl Engine for WireEngine {
             Profile::C09 => {
                 let mut v = swarm(ctx, PARAM_FAULTS);
                 v.extend(swarm(ctx, REQ_BODY_DAMAGE));
+                // Smile bodies and the other value-preserving spellings reach other error sites
+                v.extend(swarm(ctx, REQ_TRANSPARENT));
                 v
             }
             Profile::C19 => swarm(ctx, PARAM_FAULTS),
